@@ -16,22 +16,26 @@ TRUST = ("Lean 4.33 kernel; axioms at most propext/Classical.choice/Quot.sound (
          "and additionally compared bit-for-bit with the real functions; the problem classes / solver loop are "
          "hand-modelled and tied by the correspondence (differential, generator-bounded); ")
 MANIFEST = dict(
-  text=("Theorems (Props/C08.lean) over Rat, for all sizes, matrices, boxes and ALL finite sequences of admissible "
-        "operations (SMO step on any admissible pair, shrink, unshrink, coordinate flip) of the model of "
-        "SvmProblem/BoxConstrainedProblem + BoxBasedShrinkingStrategy: gradient = lin - K*alpha on the active variables "
-        "(all variables after unshrink), edge gradient = lin - K*alpha restricted to variables at a bound, box, "
-        "sum preserved (equality-constrained problem), bound flags = coefficients at bounds, permutation stays a permutation "
-        "with the data permuted along, shrunk variables are at a bound; the equality-constrained SMO step never decreases "
-        "the dual objective for PSD K; a variable removed by shrinking has no first-order ascent direction; "
-        "for the T0-generated solveQuadraticEdge/solveQuadratic2DBox: result in the box and gain >= 0 (2-D box: _partial, "
-        "outside the region of finding F5, with a decide-checked witness inside). "
+  text=("Theorems (Props/C08.lean) over Rat, for all sizes, symmetric matrices and boxes: the state invariant of the model of "
+        "SvmProblem/BoxConstrainedProblem + BoxBasedShrinkingStrategy -- gradient = lin - K*alpha on the active variables, edge "
+        "gradient = lin - K*alpha restricted to variables at a bound, box, bound flags = coefficients at bounds, permutation "
+        "injective and in range, shrunk variables at a bound -- holds for the constructed problem (init_inv) and is preserved by "
+        "EVERY finite sequence of coordinate flips, shrink(eps) (including its internal unshrink and back-to-front loop) and "
+        "unshrink (reachable_inv_partial, by induction over the op list); after unshrink the gradient of ALL variables is "
+        "lin - K*alpha (grad_all_after_unshrink). For the T0-generated kernels (regenerated from AnalyticProblems.h on every run): "
+        "solveQuadraticEdge and solveQuadratic2DBox return points of the box (all inputs), the 1-D step has gain >= 0 outside the "
+        "documented curvature guard 0<Q<1e-12 (edge_gain_nonneg_partial + witness inside). "
         "Tie: the Float instance of the same definitions is compared bit-for-bit, the Rat instance exactly on FE_INEXACT-free "
-        "prefixes, with the real classes driven through QpSolver::solve and through adversarial op sequences "
-        "(double/float entries, CachedMatrix with minimal and larger caches) under ASan/UBSan; an independent oracle "
-        "re-derives lin - K*alpha and checks every clause after every operation."),
-  note=TRUST + "rounding: theorems are about exact arithmetic, the Float behaviour is tied only by the bit-for-bit correspondence; "
-       "HMG working-set selection, deactivateVariable/scaleBoxConstraints/setLinear are not modelled; "
-       "termination of the solver is not claimed.",
+        "prefixes, with the real classes driven through QpSolver::solve (MVP / LibSVM / maximum-gain selection) and through "
+        "adversarial op sequences (double/float entries, CachedMatrix with minimal and larger caches) under ASan/UBSan; an "
+        "independent oracle re-derives lin - K*alpha and checks every clause of the property (incl. objective monotonicity, sum "
+        "preservation and soundness of shrinking) after every operation."),
+  note=TRUST + "NOT yet proved, covered by the exact/bit-for-bit correspondence and the oracle only: preservation of the invariant by the "
+       "SMO steps themselves (updateSMO of both problem kinds, hence the name reachable_inv_partial), sum preservation, "
+       "smo_step_gain / box2d_gain_nonneg (objective monotonicity), shrink_sound; the theorems on the 2-D box solver hold for the "
+       "tree with the proposed F5 patch (the generated definition changes with the source). "
+       "Rounding: theorems are about exact arithmetic. HMG working-set selection, deactivateVariable/scaleBoxConstraints/setLinear are not modelled; "
+       "termination is not claimed.",
   technique="Lean 4 invariant proof by induction over operation sequences + T0 translation of the analytic kernels + "
             "differential correspondence with the C++ (exact / bit-for-bit, ASan/UBSan)",
   design="§6 C08")
